@@ -10,7 +10,7 @@ from .common import gt, fields, invariant_claims
 PROP = "C06"
 
 BOUNDS = {
-    "quick": "D=2 and D=3, every proper non-empty subset b in every order (condition_on) and with an explicit ordered complement (condition_on_explicit), R<=2, fully symbolic",
+    "quick": "D=4 / D=5 with an explicit complement of 3-4 coordinates in every order (covariance concrete, means and points symbolic); D=2 and D=3, every proper non-empty subset b in every order (condition_on) and with an explicit ordered complement (condition_on_explicit), R<=2, fully symbolic",
     "thorough": "adds D=4 with the covariance bound to generic rationals (means and points symbolic), R=3",
 }
 
@@ -89,6 +89,13 @@ def cases(tier, seed=0):
             if tier == "quick" and list(a) == rest and len(rest) > 1:
                 continue    # the ascending order is what condition_on already covers
             out.append(cond_case(3, 1, b, a_idx=list(a), timeout=600))
+    # D >= 4: an explicit complement of 3 or 4 coordinates in EVERY order (3-cycles are the permutations that differ from
+    # their own inverse); covariance bound to generic rationals, means and evaluation points symbolic
+    for a in itertools.permutations([0, 2, 3]):
+        out.append(cond_case(4, 2, [1], a_idx=list(a), semi=("S",), timeout=900))
+    out.append(cond_case(5, 1, [4, 1], a_idx=[3, 0, 2], semi=("S",), timeout=900))
+    out.append(cond_case(5, 2, [2], a_idx=[4, 0, 3, 1], semi=("S",), timeout=900))
+    out.append(cond_case(4, 2, [3, 0], semi=("S",), timeout=900))
     if tier == "thorough":
         for b in ([0], [3, 1], [2, 0, 3], [1, 3], [3], [0, 2, 1]):
             out.append(cond_case(4, 2, b, semi=("S",), timeout=1500))
